@@ -187,3 +187,130 @@ func walkDeclared(t Type, b []byte, off, depth int, max *int64) (int, bool) {
 	}
 	return off, false
 }
+
+// LargestDeclared walks b structurally like MaxDeclared and reports the first
+// header (in decoding order) declaring a value >= 2^16 and its kind (same kind
+// names as Marks); if there is none, the largest declared value.
+func LargestDeclared(t Type, b []byte) (int64, string) {
+	var max int64
+	kind := ""
+	var walk func(t Type, off, depth int) (int, bool)
+	walk = func(t Type, off, depth int) (int, bool) {
+		if depth > 64 {
+			return off, false
+		}
+		need := func(n int) bool { return off+n <= len(b) && off+n >= off }
+		note := func(v int64, k string) {
+			// the first header (in decoding order) that declares a large value is the
+			// one a decoder acts on; later "declarations" are bytes read past it
+			if max >= 1<<16 {
+				return
+			}
+			if v > max {
+				max, kind = v, k
+			}
+		}
+		switch t {
+		case Bool, I8:
+			return off + 1, need(1)
+		case I16:
+			return off + 2, need(2)
+		case I32:
+			return off + 4, need(4)
+		case I64, Double:
+			return off + 8, need(8)
+		case Binary:
+			if !need(4) {
+				return off, false
+			}
+			x, _ := rd(b, off, 4)
+			l := int64(int32(x))
+			note(l, "binary-length")
+			if l < 0 || off+4+int(l) > len(b) {
+				return off, false
+			}
+			return off + 4 + int(l), true
+		case Struct:
+			for {
+				if !need(1) {
+					return off, false
+				}
+				ft := Type(b[off])
+				off++
+				if ft == 0 {
+					return off, true
+				}
+				if !ft.Valid() || !need(2) {
+					return off, false
+				}
+				off += 2
+				n, ok := walk(ft, off, depth+1)
+				if !ok {
+					return n, false
+				}
+				off = n
+			}
+		case Map:
+			if !need(6) {
+				return off, false
+			}
+			kt, vt := Type(b[off]), Type(b[off+1])
+			x, _ := rd(b, off+2, 4)
+			c := int64(int32(x))
+			cl := "var"
+			if fixed(kt) && fixed(vt) {
+				cl = "fixed"
+			}
+			note(c, "map-count("+cl+")")
+			off += 6
+			if c < 0 {
+				return off, false
+			}
+			for i := int64(0); i < c; i++ {
+				if !kt.Valid() || !vt.Valid() {
+					return off, false
+				}
+				n, ok := walk(kt, off, depth+1)
+				if !ok {
+					return n, false
+				}
+				n, ok = walk(vt, n, depth+1)
+				if !ok {
+					return n, false
+				}
+				off = n
+			}
+			return off, true
+		case Set, List:
+			if !need(5) {
+				return off, false
+			}
+			et := Type(b[off])
+			x, _ := rd(b, off+1, 4)
+			c := int64(int32(x))
+			k := "list"
+			if t == Set {
+				k = "set"
+			}
+			note(c, k+"-count("+class(et)+")")
+			off += 5
+			if c < 0 {
+				return off, false
+			}
+			for i := int64(0); i < c; i++ {
+				if !et.Valid() {
+					return off, false
+				}
+				n, ok := walk(et, off, depth+1)
+				if !ok {
+					return n, false
+				}
+				off = n
+			}
+			return off, true
+		}
+		return off, false
+	}
+	walk(t, 0, 0)
+	return max, kind
+}
